@@ -4,6 +4,8 @@ CONSTANTS MaxFds = 2
   DescB = 1
   CarryDesc = TRUE
   CloseOnReject = TRUE
+  RejectCtrunc = TRUE
+  AbsorbDesc = TRUE
   MaxOps = 4
   Lens = {0, 1, 2, 3}
   Vals = {1, 3, 4, 5, 6, 7}
